@@ -1,0 +1,44 @@
+//go:build verif
+
+package blummod
+
+// Decoder schema (property C12), instantiated mechanically by `govc gen-decoders`: a decoder returns nil only if
+// the validating constructor, applied to the decoded fields, returned a nil error. Constructors marked
+// "assumed / purefn" are only assumed to be deterministic functions of their arguments.
+
+//@ func (*Statement).UnmarshalCBOR
+//@   property C12
+//@   let dto = as(res(serde.UnmarshalCBOR(data), 0), *statementDTO)
+//@   ensures err == nil ==> res(NewStatement(dto.PublicKey), 1) == nil
+
+//@ func (*Commitment).UnmarshalCBOR
+//@   property C12
+//@   let dto = as(res(serde.UnmarshalCBOR(data), 0), *commitmentDTO)
+//@   ensures err == nil ==> res(NewCommitment(dto.W), 1) == nil
+
+//@ func (*State).UnmarshalCBOR
+//@   property C12
+//@   let dto = as(res(serde.UnmarshalCBOR(data), 0), *stateDTO)
+//@   ensures err == nil ==> res(NewState(dto.S), 1) == nil
+
+//@ func (*ResponseItem).UnmarshalCBOR
+//@   property C12
+//@   let dto = as(res(serde.UnmarshalCBOR(data), 0), *responseItemDTO)
+//@   ensures err == nil ==> res(NewResponseItem(dto.X, dto.A, dto.B, dto.Z), 1) == nil
+
+//@ func NewCommitment
+//@   assumed
+//@   purefn
+
+//@ func NewResponseItem
+//@   assumed
+//@   purefn
+
+//@ func NewState
+//@   assumed
+//@   purefn
+
+//@ func NewStatement
+//@   assumed
+//@   purefn
+
